@@ -149,6 +149,13 @@ class World:
             else:
                 self.ncp_timeout()
             return True
+        if fault == "r" and direction == "n2h" and self.loop.next_timer() is not None:
+            # the frame was held up on the line exactly until the host's next deadline: the read and the timer land in ONE loop
+            # iteration, the read first
+            w = ch.pop(0)
+            self.loop.fire_next_timer([(self.p.data_received, w)])
+            self.loop.settle()
+            return True
         w = ch.pop(0)
         if fault == "x":
             return True
@@ -252,6 +259,12 @@ def scenario(rng, window, plan, nh, nn, extra, focus="mix"):
                         break
                     continue
                 w.deliver(focus, f)
+            elif focus == "race":
+                # host frames get the planned fault; whatever the NCP answers is held until the host's deadline
+                if w.h2n:
+                    w.deliver("h2n", f if f != "r" else "c")
+                if w.n2h:
+                    w.deliver("n2h", "r" if rng.random() < 0.7 else "v")
             elif w.h2n and (not w.n2h or rng.random() < 0.5):
                 w.deliver("h2n", f)
             elif w.n2h:
@@ -272,7 +285,7 @@ def scenario(rng, window, plan, nh, nn, extra, focus="mix"):
                 w.ncp_timeout()
             else:
                 d = "h2n" if (w.h2n and (not w.n2h or rng.random() < 0.5)) else "n2h"
-                w.deliver(d, rng.choice("vvvvvvxcdsll" if focus == "late" else "vvvvjjjjxcs" if focus == "react" else "vvvvvvxcds"))
+                w.deliver(d, rng.choice("vvvvvvxcdsll" if focus == "late" else "vvvvjjjjxcs" if focus == "react" else "vvvvvvxcdsrr"))
         w.quiesce()
         failed_link = w.p._ncp_state != w.ash.NcpState.CONNECTED
         return w, oracle(w), failed_link
@@ -295,6 +308,9 @@ def cases(ctx):
         cs.append((1, "".join(plan), 3, 0, 0, "h2n"))
     for _ in range(ctx.n(400, 6000)):
         cs.append((rng.choice([1, 2, 3]), "", rng.randint(0, 3), rng.randint(0, 3), rng.randint(20, 120), "mix"))
+    # corrupted host frames whose NAK (or a late ACK) reaches the host in the very iteration its ACK timer fires
+    for _ in range(ctx.n(500, 5000)):
+        cs.append((rng.choice([1, 2, 3]), "".join(rng.choice("cccvxr") for _ in range(3)), rng.randint(1, 3), rng.randint(0, 2), rng.randint(10, 60), "race"))
     # an upper layer that sends in reaction to what it receives, and reads that carry two frames (an ACK and a DATA frame together)
     for _ in range(ctx.n(600, 6000)):
         cs.append((rng.choice([1, 2, 3]), "", rng.randint(2, 4), rng.randint(1, 3), rng.randint(20, 80), "react"))
